@@ -143,13 +143,13 @@ Lemma accepted_of_facts (t : fty) (rep req opt : bool) :
   prop_accepted (mkProp false (if rep then Array (Some t) None false else Plain t) req opt) = true.
 Proof.
   intros Hl Hf Hk Hro Hop.
-  unfold prop_accepted, in_language, uses_float_rules, uses_informal_key_listrules;
+  unfold prop_accepted, in_language, uses_float_rules;
     cbn [p_schema_nil p_required p_optional p_shape negb andb]. rewrite Hro. cbn [negb andb].
   destruct rep; cbn [primary_key_shape]; rewrite Hl; cbn [andb];
     destruct t as [r fl ru|r ru lr|r ru lr|ru lr|ru|ru lr|ru lr|ff ru lr|ff ru lr|e te kf lr|ru lr|ru lr|lr|];
     cbn [is_primary_fty] in Hop; try (rewrite ?andb_false_r; reflexivity);
     try (rewrite Hf; rewrite ?andb_false_r; reflexivity);
-    try (rewrite Hk; destruct e as [|[|]| |]; rewrite ?Hop, ?andb_false_r; destruct lr; reflexivity).
+    try (destruct e as [|[|]| |]; rewrite ?Hop, ?andb_false_r; reflexivity).
 Qed.
 Lemma accepted_map_of_facts (t : fty) (req opt : bool) :
   fty_in_language t = true ->
@@ -159,10 +159,10 @@ Lemma accepted_map_of_facts (t : fty) (req opt : bool) :
   prop_accepted (mkProp false (Map (Some t) false) req opt) = true.
 Proof.
   intros Hl Hf Hk Hro.
-  unfold prop_accepted, in_language, uses_float_rules, uses_informal_key_listrules;
+  unfold prop_accepted, in_language, uses_float_rules;
     cbn [p_schema_nil p_required p_optional p_shape negb andb]. rewrite Hro, Hl. cbn [negb andb].
   destruct t as [r fl ru|r ru lr|r ru lr|ru lr|ru|ru lr|ru lr|ff ru lr|ff ru lr|e te kf lr|ru lr|ru lr|lr|];
-    try reflexivity; [rewrite Hf; reflexivity|rewrite Hk; destruct lr; reflexivity].
+    try reflexivity. rewrite Hf. reflexivity.
 Qed.
 
 Lemma abs_prop_accepted defs f :
